@@ -670,7 +670,18 @@ func cmpCliLoose(prop, name string, sc cliScenario, got cliOutcome) *obs.Fail {
 					gd = &sc.Dels[k]
 				}
 			}
-			if gd != nil && gd.At < c.ReleaseAt {
+			// (only for a datagram that certainly sat in the transaction's own queue: one of the first four behind the held
+			// one — later ones may still have been in the socket when the matcher was released, and a retry drops the queue)
+			pos := 0
+			if gd != nil {
+				for k := range sc.Dels {
+					e := sc.Dels[k]
+					if passesFilters(sc.V6, e) && e.Xid == c.Xid && e.At >= c.Start && (e.At < gd.At || (e.At == gd.At && e.Serial < gd.Serial)) {
+						pos++
+					}
+				}
+			}
+			if gd != nil && gd.At < c.ReleaseAt && pos <= 4 {
 				for k := range sc.Dels {
 					e := sc.Dels[k]
 					if e.Serial != g.Serial && passesFilters(sc.V6, e) && e.Xid == c.Xid && e.Typ == c.Want && e.At >= c.Start && (e.At < gd.At || (e.At == gd.At && e.Serial < gd.Serial)) {
